@@ -350,6 +350,33 @@ def c_bilinear(ctx, case):
                 break
 
 
+def _split_tuples(A, sp, cancel):
+    """A again, from index-tuple data in which one blade of grade >= 2 appears under two
+    index orders (i, j, ...) and (j, i, ...): c = c1 + c2 is given as {(i,j,..): c1, (j,i,..): -c2};
+    with cancel=True a blade that is NOT in A is added as {(i,j,..): d, (j,i,..): d} (sum 0)"""
+    n = sp.dimensions
+    data = {k: v for k, v in A.items()}
+    blades = [b for b in cl.all_blades(n) if len(b) >= 2]
+    if cancel:
+        free = [b for b in blades if b not in data]
+        if not free:
+            return mk(sp, A)
+        b = free[0]
+        sw = (b[1], b[0], *b[2:])
+        data[b] = 5
+        data[sw] = 5
+    else:
+        mine = [b for b in blades if b in data]
+        if not mine:
+            return mk(sp, A)
+        b = mine[0]
+        sw = (b[1], b[0], *b[2:])
+        c = data[b]
+        data[b] = c - 2
+        data[sw] = -2
+    return MultiVector(data, sp)
+
+
 @check("C18.eqhash")
 def c_eqhash(ctx, case):
     g, A, B = case
@@ -372,6 +399,10 @@ def c_eqhash(ctx, case):
         ("(-A) built afresh", mk(sp, cl.scale(-1, A)), cl.scale(-1, A)),
         ("A.map(2c) after hash(A)", (hash(mA), mA.map(lambda c: 2 * c))[1], cl.scale(2, A)),
         ("2A built afresh", mk(sp, cl.scale(2, A)), cl.scale(2, A)),
+        # index-TUPLE data naming one blade twice under different index orders: the two entries
+        # are summed with their reordering signs -- also when they cancel to nothing
+        ("A with a blade split over two index orders", _split_tuples(A, sp, cancel=False), dict(A)),
+        ("A plus a blade that cancels itself", _split_tuples(A, sp, cancel=True), dict(A)),
         ("MV(0)", MultiVector(0, sp), {}),
         ("MV({0: 0})", MultiVector({0: 0}, sp), {}),
         ("MV(explicit zero term)", MultiVector({**mA.data, (2 ** len(g) - 1): 0}, sp)
